@@ -132,6 +132,58 @@ theorem hasActive_iff {v : HandlerVec α} (h : VecWf v) :
     obtain ⟨c, hc⟩ : ∃ c, v.items[j].userCount = c + 1 := ⟨v.items[j].userCount - 1, by omega⟩
     exact sum_pos_of_getElem (v.items.map (·.userCount)) j c (by simp [hj, hc])
 
+
+/-! ### the `HandlerVec` loops cannot fail on a synchronised vector -/
+
+theorem deactivate_ok {v : HandlerVec α} (h : VecWf v) : ∃ r, v.doForEachActiveAndDeactivate = .ok r := by
+  rw [h.eq_mk, deactivate_mk]; exact ⟨_, rfl⟩
+
+theorem drainLoop_spec (items : List (Item α)) (t : Nat) (ht : (items.map (·.userCount)).sum ≤ t) :
+    HandlerVec.drainLoop items t =
+      .ok (t - (items.map (·.userCount)).sum, (items.filter fun it => decide (0 < it.userCount)).map (·.handler)) := by
+  induction items generalizing t with
+  | nil => simp [HandlerVec.drainLoop]
+  | cons x xs ih =>
+    simp only [List.map_cons, List.sum_cons] at ht
+    unfold HandlerVec.drainLoop
+    by_cases hx : 0 < x.userCount
+    · have h1 : x.userCount ≤ t := by omega
+      simp only [hx, if_true, checkedSub, h1]
+      rw [ih (t - x.userCount) (by omega)]
+      simp [hx, List.sum_cons, Nat.sub_sub]
+    · have h0 : x.userCount = 0 := by omega
+      simp only [hx, if_false]
+      rw [ih t (by omega)]
+      simp [List.sum_cons, h0, hx]
+
+/-- neither the `-=` on the total (handlers_dispatcher.rs:123) nor the final
+`debug_assert_eq!(self.user_count, 0)` (:128) of `do_for_each_active_and_remove_tail` can fire -/
+theorem removeTail_ok {v : HandlerVec α} (h : VecWf v) : ∃ r, v.doForEachActiveAndRemoveTail = .ok r := by
+  unfold HandlerVec.doForEachActiveAndRemoveTail
+  split
+  · rename_i hnone
+    rw [List.findIdx?_eq_none_iff] at hnone
+    have : v.userCount = 0 := by
+      rw [h]; exact sum_zero_of_inactive _ (fun it hit => by simpa using hnone it hit)
+    simp [this]
+  · rename_i first hsome
+    rw [List.findIdx?_eq_some_iff_getElem] at hsome
+    obtain ⟨hlt, _, hbefore⟩ := hsome
+    have hsplit : (v.items.map (·.userCount)).sum =
+        ((v.items.take first).map (·.userCount)).sum + ((v.items.drop first).map (·.userCount)).sum := by
+      rw [← List.sum_append, ← List.map_append, List.take_append_drop]
+    have htake : ((v.items.take first).map (·.userCount)).sum = 0 := by
+      apply sum_zero_of_inactive
+      intro it hit
+      obtain ⟨j, hj, rfl⟩ := List.getElem_of_mem hit
+      have hj' : j < first := by simp only [List.length_take] at hj; omega
+      have := hbefore j hj'
+      simpa [List.getElem_take] using this
+    have hsum : ((v.items.drop first).reverse.map (·.userCount)).sum = v.userCount := by
+      rw [List.map_reverse, sum_reverse, h, hsplit, htake]; omega
+    rw [drainLoop_spec _ _ (by rw [hsum]; exact Nat.le_refl _), hsum]
+    simp
+
 /-! ### the dispatcher -/
 
 /-- every vector of the dispatcher is synchronised -/
